@@ -1325,7 +1325,7 @@ add_num_op(phase_t *ph, int kind, int sect, int name, int64_t v) {
 	o->sect = sect; o->name = name; o->ival = v;
 }
 
-static phase_t PH_CLOSED, PH_MIXED, PH_DEEP;
+static phase_t PH_CLOSED, PH_MIXED, PH_MIXED4, PH_DEEP;
 
 static void
 phases_init(int inplace) {
@@ -1363,22 +1363,34 @@ phases_init(int inplace) {
 	add_set_ops(&PH_DEEP, 2, 2, "012", 3);
 	add_num_op(&PH_DEEP, OP_SET_UINT, 0, 1, 100);
 
-	/* mixed: everything, depth bounded */
+	/* mixed: everything, depth 3 */
 	PH_MIXED.name = "mixed";
-	PH_MIXED.depth = (vh_thorough && !inplace) ? 4 : 3;
+	PH_MIXED.depth = 3;
 	for (s = 0; s < 8; s ++)
 		add_parse_op(&PH_MIXED, s, 0);
-	/* depth 4 (thorough, asan) drops the 17-byte value: 47 instead of 56 operations halves the level-4 fan-out */
-	add_set_ops(&PH_MIXED, 3, 3, (4 == PH_MIXED.depth) ? "0123" : "01234", 7);
+	add_set_ops(&PH_MIXED, 3, 3, "01234", 7);
 	add_num_op(&PH_MIXED, OP_SET_INT, 0, 0, -12);
 	add_num_op(&PH_MIXED, OP_SET_UINT, 1, 2, 100);
 	add_num_op(&PH_MIXED, OP_SET_INT, 1, 1, 0);
+
+	/* mixed4 (thorough, asan): depth 4 over the mixed alphabet without the 17-byte value and without the
+	 * 62-blank-line snippet (46 operations): those two multiply the level-4 cost and stay covered at depth 3 */
+	PH_MIXED4.name = "mixed4";
+	PH_MIXED4.depth = 4;
+	for (s = 0; s < 7; s ++)
+		add_parse_op(&PH_MIXED4, s, 0);
+	add_set_ops(&PH_MIXED4, 3, 3, "0123", 7);
+	add_num_op(&PH_MIXED4, OP_SET_INT, 0, 0, -12);
+	add_num_op(&PH_MIXED4, OP_SET_UINT, 1, 2, 100);
+	add_num_op(&PH_MIXED4, OP_SET_INT, 1, 1, 0);
+	(void)inplace;
 }
 
 static phase_t *
 phase_by_name(const char *n) {
 	if (0 == strcmp(n, "closed")) return (&PH_CLOSED);
 	if (0 == strcmp(n, "mixed")) return (&PH_MIXED);
+	if (0 == strcmp(n, "mixed4")) return (&PH_MIXED4);
 	if (0 == strcmp(n, "deep")) return (&PH_DEEP);
 	return (NULL);
 }
@@ -1475,17 +1487,25 @@ main(int argc, char **argv) {
 	if (NULL != single_phase)
 		return (single(single_phase, single_hist));
 
-	if (NULL == only_phase || NULL != strstr(only_phase, "closed")) {
-		bfs(&PH_CLOSED, &st);
-		if (0 == vh_shard) print_stat(cfg, &PH_CLOSED, &st);
-	}
-	if (NULL == only_phase || NULL != strstr(only_phase, "deep")) {
-		bfs(&PH_DEEP, &st);
-		if (0 == vh_shard) print_stat(cfg, &PH_DEEP, &st);
-	}
-	if (NULL == only_phase || NULL != strstr(only_phase, "mixed")) {
-		bfs(&PH_MIXED, &st);
-		if (0 == vh_shard) print_stat(cfg, &PH_MIXED, &st);
+	{
+		phase_t *all[] = { &PH_CLOSED, &PH_DEEP, &PH_MIXED, &PH_MIXED4 };
+		size_t k;
+		for (k = 0; k < NELEM(all); k ++) {
+			char tok[32];
+			snprintf(tok, sizeof(tok), ",%s,", all[k]->name);
+			if (NULL == only_phase) {
+				if (all[k] == &PH_MIXED4)
+					continue;	/* only on request */
+			} else {
+				char lst[128];
+				snprintf(lst, sizeof(lst), ",%s,", only_phase);
+				if (NULL == strstr(lst, tok))
+					continue;
+			}
+			bfs(all[k], &st);
+			if (0 == vh_shard)
+				print_stat(cfg, all[k], &st);
+		}
 	}
 	return (vh_finish());
 }
